@@ -9,8 +9,9 @@ from . import facts
 
 SPECIAL_NAMES = {"Def", "Def-expand", "Definition", "Onset", "Offset", "Inset", "Duration", "Delay", "Event-context"}
 SPECIAL_ATTRS = ("requireChild", "tagGroup", "topLevelTagGroup", "unique", "required", "deprecatedFrom", "reserved")
-DEFS = "(Definition/Aaa, (Red, Blue)), (Definition/Bbb/#, (Age/#, Green))"
-DEF_USES = ["Def/Aaa", "Def/Bbb/4", "Def/aaa", "Def/Bbb/7"]
+# (Nnn: the placeholder sits in a NESTED group of the definition)
+DEFS = "(Definition/Aaa, (Red, Blue)), (Definition/Bbb/#, (Age/#, Green)), (Definition/Nnn/#, (Red, (Age/#, Blue)))"
+DEF_USES = ["Def/Aaa", "Def/Bbb/4", "Def/aaa", "Def/Bbb/7", "Def/Nnn/5"]
 VALUE_BY_CLASS = {"numericClass": "3", "textClass": "abc", "nameClass": "abc", "dateTimeClass": "2000-01-01T10:00:00"}
 
 
@@ -128,6 +129,9 @@ class Vocab:
                 self.flaws.append(("def-bad-unit", lambda i: "Def/Ccc/3 qqzz", "DEF_INVALID", False))
                 break
         if self.has["Def"]:
+            if any(t["name"] == "Age" for t in self.num_tags):      # (the definitions' placeholder tag Age/# is numeric in this schema)
+                self.flaws.append(("def-nested-bad-value", lambda i: "Def/Nnn/abc", "DEF_INVALID", False))
+                self.flaws.append(("def-bad-value", lambda i: "Def/Bbb/abc", "DEF_INVALID", False))
             self.flaws.append(("undeclared-def", lambda i: "Def/Nopezz%d" % (i % 5), "DEF_INVALID", False))
             self.flaws.append(("def-extra-value", lambda i: "Def/Aaa/3", "DEF_INVALID", False))
             self.flaws.append(("def-missing-value", lambda i: "Def/Bbb", "DEF_INVALID", False))
